@@ -301,3 +301,85 @@ def build_and_audit(prop, log=None):
     finally:
         fcntl.flock(lock, fcntl.LOCK_UN)
         lock.close()
+
+
+# ----------------------------------------------------------------------------- automata
+def mk_wfsa(desc, R="Float", cls="field", exact=False):
+    """descriptor {"start":[[q,w]…],"stop":[[q,w]…],"arcs":[[i,a,j,w]…]} -> real WFSA ('' is ε)."""
+    if cls == "field":
+        from genlm.grammar.wfsa.field_wfsa import WFSA
+    else:
+        from genlm.grammar.wfsa.base import WFSA
+    m = WFSA(semiring(R))
+    for q, w in desc["start"]:
+        m.add_I(dec_sym(q), mk_w(w, R, exact))
+    for q, w in desc["stop"]:
+        m.add_F(dec_sym(q), mk_w(w, R, exact))
+    for i, a, j, w in desc["arcs"]:
+        m.add_arc(dec_sym(i), dec_sym(a), dec_sym(j), mk_w(w, R, exact))
+    return m
+
+
+def enc_wfsa(m, R="Float", state=enc_sym):
+    return {
+        "start": [[state(q), enc_w(w, R)] for q, w in m.start.items()],
+        "stop": [[state(q), enc_w(w, R)] for q, w in m.stop.items()],
+        "arcs": [[state(i), enc_sym(a), state(j), enc_w(w, R)] for i, a, j, w in m.arcs()],
+    }
+
+
+def mk_fst(desc, R="Float", exact=False):
+    """descriptor with arcs [[i,a,b,j,w]…] -> real FST"""
+    from genlm.grammar.fst import FST
+    m = FST(semiring(R))
+    for q, w in desc["start"]:
+        m.add_I(dec_sym(q), mk_w(w, R, exact))
+    for q, w in desc["stop"]:
+        m.add_F(dec_sym(q), mk_w(w, R, exact))
+    for i, a, b, j, w in desc["arcs"]:
+        m.add_arc(dec_sym(i), (dec_sym(a), dec_sym(b)), dec_sym(j), mk_w(w, R, exact))
+    return m
+
+
+def enc_fst(m, R="Float", state=enc_sym):
+    return {
+        "start": [[state(q), enc_w(w, R)] for q, w in m.start.items()],
+        "stop": [[state(q), enc_w(w, R)] for q, w in m.stop.items()],
+        "arcs": [[state(i), enc_sym(ab[0]), enc_sym(ab[1]), state(j), enc_w(w, R)] for i, ab, j, w in m.arcs()],
+    }
+
+
+def canon_wfsa(desc):
+    """accumulated weights per key, zero entries dropped, sorted (a Chart is a function with default zero)"""
+    def acc(items, keyf, wf):
+        d = {}
+        for it in items:
+            k = keyf(it)
+            w = wf(it)
+            d[k] = (d.get(k, False) or w) if isinstance(w, bool) else d.get(k, 0) + num(w)
+        return sorted((k, v) for k, v in d.items() if v not in (0, False))
+    return {"start": acc(desc["start"], lambda e: symkey(e[0]), lambda e: e[1]),
+            "stop": acc(desc["stop"], lambda e: symkey(e[0]), lambda e: e[1]),
+            "arcs": acc(desc["arcs"], lambda e: symkey(e[:-1]), lambda e: e[-1])}
+
+
+def same_wfsa(a, b, tol=1e-9):
+    ca, cb = canon_wfsa(a), canon_wfsa(b)
+    for part in ("start", "stop", "arcs"):
+        da, db = dict(ca[part]), dict(cb[part])
+        if set(da) != set(db):
+            return False, f"{part}: only-model {sorted(set(da) - set(db))[:3]} only-impl {sorted(set(db) - set(da))[:3]}"
+        for k in da:
+            if not close(da[k], db[k], tol, 1e-12):
+                return False, f"{part} {k}: model {da[k]} impl {db[k]}"
+    return True, ""
+
+
+def dec_float(v):
+    """driver weight (possibly {"bits":…} or a list) -> python number"""
+    import struct
+    if isinstance(v, dict) and "bits" in v:
+        return struct.unpack("<d", struct.pack("<Q", v["bits"]))[0]
+    if isinstance(v, list):
+        return tuple(dec_float(x) for x in v)
+    return num(v)
